@@ -161,5 +161,11 @@ func tryDecodingAPIError(resp *http.Response) error {
 		return APIError{Status: "error", ErrorType: v1.ErrBadResponse, Err: resp.Status}
 	}
 
-	return APIError{Status: status, ErrorType: decodeErrorType(errType), Err: errText}
+	errorType := decodeErrorType(errType)
+	if errorType == ErrUnknown && errType != "" && resp.StatusCode/100 == 5 {
+		// Prometheus itself sends "internal" (500) and "unavailable" (503):
+		// a 5xx response with an error type we don't know means that the server is not able to answer.
+		errorType = v1.ErrServer
+	}
+	return APIError{Status: status, ErrorType: errorType, Err: errText}
 }
